@@ -96,6 +96,9 @@ pub fn ts_pool() -> Vec<i64> {
         v.push(d as i64 * DAY_US + DAY_US - 1);
         v.push(d as i64 * DAY_US + 12 * H);
     }
+    for k in 10..58 {
+        v.extend([(1i64 << k) - 1, 1i64 << k, (1i64 << k) + 1, -(1i64 << k) - 1, -(1i64 << k), -(1i64 << k) + 1]);
+    }
     v.extend([TS_MIN, TS_MIN + 1, TS_MAX, TS_MAX - 1, -1, 0, 1, (1i64 << 53) - 1, 1i64 << 53, (1i64 << 53) + 1, -(1i64 << 53), -(1i64 << 53) - 1, ORA_MAX, ORA_MAX + 1, ORA_MAX - 1]);
     v.retain(|x| (TS_MIN..=TS_MAX).contains(x));
     v.sort();
@@ -106,6 +109,9 @@ pub fn ts_pool() -> Vec<i64> {
 pub fn ym_pool() -> Vec<i32> {
     let mut v: Vec<i64> = vec![0, 1, 2, 11, 12, 13, 23, 24, 25, 40, 1199, 1200, 1201, 4800, 119_987, 119_988, 119_989, 12 * 9998, 12 * 9998 + 11, 1_000_000, 12 * 177_999_999 + 11,
         YM_LIM as i64 - 12, YM_LIM as i64 - 1, YM_LIM as i64, 1 << 30, (1 << 30) + 1, 1_068_000_000, 1_068_000_001];
+    for k in 2..31 {
+        v.extend([(1i64 << k) - 1, 1i64 << k, (1i64 << k) + 1]);
+    }
     let neg: Vec<i64> = v.iter().map(|x| -x).collect();
     v.extend(neg);
     let mut v: Vec<i32> = v.into_iter().filter(|x| x.abs() <= YM_LIM as i64).map(|x| x as i32).collect();
@@ -118,6 +124,9 @@ pub fn dt_pool() -> Vec<i64> {
     let mut v: Vec<i64> = vec![0, 1, 2, 999_999, S, S + 1, MI - 1, MI, H - 1, H, 12 * H, DAY_US - 1, DAY_US, DAY_US + 1, 2 * DAY_US, 3 * DAY_US + 12 * H, 7 * DAY_US, 31 * DAY_US,
         32 * DAY_US, 33 * DAY_US - 1, 365 * DAY_US, 366 * DAY_US, 3_652_058 * DAY_US, 3_652_058 * DAY_US + DAY_US - 1, 3_652_059 * DAY_US, TS_MAX, TS_MAX - TS_MIN, TS_MAX - TS_MIN + 1,
         -TS_MIN, (1 << 53) - 1, 1 << 53, (1 << 53) + 1, 1 << 62, 99_999_999 * DAY_US + DAY_US - 1, DT_LIM - DAY_US, DT_LIM - 1, DT_LIM, 4_320_000_000_000_000_000, 4_320_000_000_000_000_001];
+    for k in 2..63 {
+        v.extend([(1i64 << k) - 1, 1i64 << k, (1i64 << k) + 1]);
+    }
     let mut p = 10i64;
     while p < DT_LIM {
         v.extend([p - 1, p, p + 1]);
